@@ -160,6 +160,7 @@ func build(c *vlib.Ctx, shape string) *scen {
 			return true
 		}
 		s.tamper["other-key"] = func() bool { signV1(sim, t, map[int]types.PrivateKey{0: k.SK("X"), 1: k.SK("X")}); return true }
+		s.tamper["alg-swap"] = func() bool { return algSwap(&t.SiacoinInputs[0].UnlockConditions, t) }
 	}
 	v2pay := func(idx int, pol types.SpendPolicy, signers []string, pres [][32]byte) {
 		if !advance(c, sim, 1, nil) {
@@ -279,6 +280,7 @@ func build(c *vlib.Ctx, shape string) *scen {
 			return true
 		}
 		s.tamper["other-key"] = func() bool { signV1(sim, t, map[int]types.PrivateKey{0: k.SK("X")}); return true }
+		s.tamper["alg-swap"] = func() bool { return algSwap(&t.SiafundInputs[0].UnlockConditions, t) }
 	case "v1revision":
 		pay := uint64(256411)
 		vs := pay - (pay*39/1000)/10000*10000
@@ -312,6 +314,37 @@ func build(c *vlib.Ctx, shape string) *scen {
 			return true
 		}
 		s.tamper["other-key"] = func() bool { signV1(sim, t, map[int]types.PrivateKey{0: k.SK("X")}); return true }
+		s.tamper["alg-swap"] = func() bool { return algSwap(&t.FileContractRevisions[0].UnlockConditions, t) }
+	case "v1fndpartial":
+		if !advance(c, sim, 1, nil) {
+			return nil
+		}
+		e := gen(sim, 10) // owned by the Foundation primary address
+		s.v1 = []types.Transaction{{
+			SiacoinInputs:  []types.SiacoinInput{{ParentID: e.ID, UnlockConditions: k.UC("F")}},
+			SiacoinOutputs: []types.SiacoinOutput{{Value: cur(3000), Address: k.Addr("B")}, {Value: cur(2000), Address: k.Addr("F")}},
+			ArbitraryData:  [][]byte{[]byte("memo: a payment by the Foundation")},
+			Signatures: []types.TransactionSignature{{ParentID: types.Hash256(e.ID),
+				CoveredFields: types.CoveredFields{SiacoinInputs: []uint64{0}, SiacoinOutputs: []uint64{0}, ArbitraryData: []uint64{0}}}},
+		}}
+		t := &s.v1[0]
+		s.sign = func() { signV1(sim, t, map[int]types.PrivateKey{0: k.SK("F")}) }
+		s.tamper["out-addr"] = func() bool { t.SiacoinOutputs[0].Address = addrC; return true }
+		s.tamper["uncovered-out"] = func() bool { t.SiacoinOutputs[1].Address = addrC; return true }
+		s.tamper["sig-flip"] = func() bool { t.Signatures[0].Signature[9] ^= 4; return true }
+		s.tamper["sig-drop"] = func() bool { t.Signatures = nil; return true }
+		s.tamper["sig-extra"] = func() bool { t.Signatures = append(t.Signatures, t.Signatures[0]); return true }
+		s.tamper["other-key"] = func() bool { signV1(sim, t, map[int]types.PrivateKey{0: k.SK("X")}); return true }
+		s.tamper["fnd-append"] = func() bool {
+			// a third party appends a Foundation address update in an entry the signature does not cover
+			var buf bytes.Buffer
+			enc := types.NewEncoder(&buf)
+			types.SpecifierFoundation.EncodeTo(enc)
+			types.FoundationAddressUpdate{NewPrimary: addrC, NewFailsafe: addrC}.EncodeTo(enc)
+			enc.Flush()
+			t.ArbitraryData = append(t.ArbitraryData, buf.Bytes())
+			return true
+		}
 	case "v1foundation", "v2foundation":
 		if !advance(c, sim, 1, nil) {
 			return nil
@@ -596,4 +629,19 @@ func main() {
 	}
 	_ = consensus.State{}
 	c.Finish()
+}
+
+
+// algSwap replaces the revealed unlock conditions by ones that carry the same key bytes under an algorithm nobody
+// verifies (any signature is accepted for such a key): other conditions, so they must not hash to the same address.
+func algSwap(uc *types.UnlockConditions, t *types.Transaction) bool {
+	if len(uc.PublicKeys) != 1 {
+		return false
+	}
+	key := append([]byte(nil), uc.PublicKeys[0].Key...)
+	*uc = types.UnlockConditions{PublicKeys: []types.UnlockKey{{Algorithm: types.NewSpecifier("notakey"), Key: key}}, SignaturesRequired: 1}
+	for i := range t.Signatures {
+		t.Signatures[i].Signature = make([]byte, 64)
+	}
+	return true
 }
